@@ -66,7 +66,7 @@ PROPS = {
                 nontrivial="any template or descriptor"),
     "C13": dict(streams=["sdt"], exhaustive="all op sequences of length <= 2 (3 in the thorough tier) over a 34-op alphabet on a 40-byte table; every declared length 0..80",
                 nontrivial="at least one operation"),
-    "C14": dict(streams=["ent", "aml", "sdt", "cks", "tbl"], exhaustive="", nontrivial="any object"),
+    "C14": dict(streams=["ent", "aml", "sdt", "cks", "tbl", "fix"], exhaustive="", nontrivial="any object"),
     "C15": dict(streams=["amlalt", "misc"], exhaustive="body sizes 0..4200 (every size near 63/64 and 4095/4096; every 7th elsewhere in the quick tier, all in the thorough tier)",
                 nontrivial="non-empty body"),
     "C18": dict(streams=["tblbig", "amlbig", "path", "pkglen", "fix", "ent"], profiles=["release", "dev"],
